@@ -75,9 +75,23 @@ def build_pair(sc):
     the client gets the header the server really answered"""
     offers = mk_offers(sc["offers"])
     req_ext = ",".join(o.get_extension_string() for o in offers)
-    sopts = {"perMessageCompressionAccept": cm.server_policy(*sc["spol"])}
+    def capped(policy, cap):
+        """the accept policy with a decompression limit (max_message_size) on what it returns: every single message of
+        the scenario stays below it, so it must not change anything - also not over a sequence of messages"""
+        if not cap:
+            return policy
+
+        def accept(x):
+            a = policy(x)
+            if a is not None and hasattr(a, "max_message_size"):
+                a.max_message_size = cap
+            return a
+        return accept
+    mms = sc.get("mms") or {}
+    sopts = {"perMessageCompressionAccept": capped(cm.server_policy(*sc["spol"]), mms.get("s"))}
     sopts.update(sc.get("sopts") or {})
-    copts = {"perMessageCompressionOffers": offers, "perMessageCompressionAccept": cm.client_policy(*sc["cpol"])}
+    copts = {"perMessageCompressionOffers": offers,
+             "perMessageCompressionAccept": capped(cm.client_policy(*sc["cpol"]), mms.get("c"))}
     copts.update(sc.get("copts") or {})
     srv = ws.make_ws(env, "server", opts=sopts, ext_request=req_ext or None)
     resp_ext = cm.ext_header(srv.handshake_bytes, "response")
